@@ -104,6 +104,13 @@ class Frame:
         if v is POISON: raise ModelViolation(f'read of uninitialised variable {k}')
         return v
 def SETC(fr, k, v): object.__setattr__(fr, k, conv(object.__getattribute__(fr, '_t')[k], v, False)); return v
+def SETL(fr, k, v):
+    """loop variable of a C-typed for/range: a value that does not fit the declared type means the C loop itself would misbehave -- the model stops"""
+    try:
+        object.__setattr__(fr, k, conv(object.__getattribute__(fr, '_t')[k], v, True))
+    except OverflowError as e:
+        raise ModelLimit('loop variable %s: %s' % (k, e))
+    return v
 def SETP(fr, k, v): object.__setattr__(fr, k, conv(object.__getattribute__(fr, '_t')[k], v, True)); return v
 def CAST(ct, v):
     if ct.endswith('*'):
@@ -114,7 +121,7 @@ def CAST(ct, v):
 def CDIV(a, b):
     q = abs(a)//abs(b); return q if (a >= 0) == (b >= 0) else -q
 def frexp(x, ref): m, e = math.frexp(x); SETC(ref.fr, ref.name, e); return m
-RT = dict(CHK=CHK, ModelLimit=ModelLimit, ModelViolation=ModelViolation, POISON=POISON, CArray=CArray, Off=Off, Ref=Ref, Frame=Frame, SETC=SETC, SETP=SETP, CAST=CAST, CDIV=CDIV,
+RT = dict(SETL=SETL, CHK=CHK, ModelLimit=ModelLimit, ModelViolation=ModelViolation, POISON=POISON, CArray=CArray, Off=Off, Ref=Ref, Frame=Frame, SETC=SETC, SETP=SETP, CAST=CAST, CDIV=CDIV,
           frexp=frexp, ldexp=math.ldexp, PyMem_Malloc=lambda n: n, PyMem_Free=lambda p: None,
           memset=lambda arr, v, n: arr.a.__setitem__(slice(0, n // csize(arr.ct)), [v]*(n // csize(arr.ct))), sizeof=csize,
           OFF=OFF, Ptr=Ptr, StructVal=StructVal, _PyDict_NewPresized=lambda n: {})
@@ -276,7 +283,7 @@ class T(ast.NodeTransformer):
     def visit_For(self, n):
         if isinstance(n.target, ast.Name) and n.target.id in self.types:
             name = n.target.id; n.target = ast.Name('_it_'+name, ast.Store())
-            n.body.insert(0, self.store(ast.Name(name, ast.Store()), ast.Name('_it_'+name, ast.Load()), 'int'))
+            n.body.insert(0, ast.Expr(ast.Call(ast.Name('SETL', ast.Load()), [ast.Name('_v', ast.Load()), ast.Constant(name), ast.Name('_it_'+name, ast.Load())], [])))
         elif isinstance(n.target, ast.Tuple):
             pre = []
             for k, e in enumerate(n.target.elts):
